@@ -50,6 +50,10 @@ pub struct RunCfg {
     /// a fresh one (quiver-cli): the next line resumes the failed process
     #[serde(default)]
     pub keep_session_after_error: bool,
+    /// a host that has the I/O builtins but could not set up an effect backend (quiver-cli when
+    /// io_uring is unavailable)
+    #[serde(default)]
+    pub no_effect_backend: bool,
 }
 
 impl RunCfg {
@@ -67,6 +71,7 @@ impl RunCfg {
             flush_subscriptions: false,
             io_signatures_only: false,
             keep_session_after_error: false,
+            no_effect_backend: false,
         }
     }
 }
@@ -134,7 +139,9 @@ impl World {
         }
         let backend = BackendState::new(cfg.files.clone(), cfg.faults.clone(), cfg.sync_io);
         let mut env = Environment::<E>::new(handles);
-        env.set_effect_backend(Box::new(SimBackend(backend.clone())));
+        if !cfg.no_effect_backend {
+            env.set_effect_backend(Box::new(SimBackend(backend.clone())));
+        }
         let tau = cfg.clock_start;
         World {
             cfg,
